@@ -48,6 +48,14 @@ fn reserved_variants() -> Vec<String> {
             v.push(format!("{w}{c}"));
             v.push(format!("{c}{w}"));
         }
+        // the reserved word with the suffixes / prefixes of the files and directories the spec puts next
+        // to a layer (all of them are ordinary names)
+        for suffix in [".toml", ".sbom", ".sbom.cdx.json", ".d", ".tmp", ".bak", "-cache", "_"] {
+            v.push(format!("{w}{suffix}"));
+        }
+        for prefix in ["x.", "my-", "."] {
+            v.push(format!("{prefix}{w}"));
+        }
     }
     v
 }
